@@ -103,6 +103,7 @@ def build():
         dynv = Even
         fac = Any(factory=lambda: (tick("factory"), [1])[1])
         p = Property(Int, observe="e")
+        pdep = Property(Int, depends_on="e")
         sup = Supports(IC)
         t = Int
         tl = List(Int)
@@ -124,6 +125,11 @@ def build():
             tick("getter")
             return self.e + 1
 
+        @cached_property
+        def _get_pdep(self):
+            tick("getter_dep")
+            return self.e * 2
+
         def _get_q(self):
             tick("qget")
             return self.__dict__.get("_q", 0)
@@ -140,6 +146,7 @@ def build():
     o.observe(lambda ev: (tick("obs_handler"), LOG.append("obs")), "e")
     o.on_trait_change(lambda: (tick("items_handler"), LOG.append("items")), "le_items")
     o.observe(lambda ev: (tick("obs_items_handler"), LOG.append("obs_items")), "le.items")
+    o.on_trait_change(lambda: LOG.append("pdep"), "pdep")
     partner = Partner()
     o.sync_trait("t", partner, "e", mutual=True)
     o.sync_trait("tl", partner, "le", mutual=True)
@@ -160,6 +167,7 @@ def snapshot(o):
     d["dynv"] = o.__dict__.get("dynv", "<unset>")
     d["fac"] = copy.deepcopy(o.__dict__.get("fac", "<unset>"))
     d["cache_p"] = o.__dict__.get("_traits_cache_p", "<unset>")
+    d["cache_pdep"] = tuple(sorted((k, repr(v)) for k, v in o.__dict__.items() if k.startswith("_traits_cache_pdep")))
     d["sup"] = type(o.__dict__.get("sup")).__name__
     p = o.__dict__["_partner"]
     d["partner.e"] = p.__dict__.get("e", 0)
@@ -188,6 +196,7 @@ OPS = {
     "set dynv bad": lambda o: setattr(o, "dynv", 3),
     "read fac": lambda o: o.fac,
     "read p": lambda o: o.p,
+    "read pdep": lambda o: o.pdep,
     "q set": lambda o: setattr(o, "q", 3),
     "q get": lambda o: o.q,
     "sup adapt": lambda o: setattr(o, "sup", IA()),
@@ -199,12 +208,12 @@ OPS = {
 }
 PREFIX = {
     "e=2": lambda o: setattr(o, "e", 2), "le=[2,4]": lambda o: setattr(o, "le", [2, 4]), "de.update": lambda o: o.de.update({"a": 2}),
-    "se={2}": lambda o: o.se.update([2]), "read p": lambda o: o.p, "read dyn": lambda o: o.dyn, "t=2": lambda o: setattr(o, "t", 2),
+    "se={2}": lambda o: o.se.update([2]), "read p": lambda o: o.p, "read pdep": lambda o: o.pdep, "read dyn": lambda o: o.dyn, "t=2": lambda o: setattr(o, "t", 2),
     "tl=[2]": lambda o: setattr(o, "tl", [2]), "q=1": lambda o: setattr(o, "q", 1), "base=2": lambda o: setattr(o, "base", 2),
 }
 FOLLOW = {
     "e=6": lambda o: setattr(o, "e", 6), "le.append": lambda o: o.le.append(12), "read dyn": lambda o: o.dyn, "read dynv": lambda o: o.dynv,
-    "read p": lambda o: o.p, "read fac": lambda o: o.fac, "de[z]=2": lambda o: o.de.__setitem__("z", 2), "q=9": lambda o: setattr(o, "q", 9),
+    "read p": lambda o: o.p, "read pdep": lambda o: o.pdep, "e=10": lambda o: setattr(o, "e", 10), "read fac": lambda o: o.fac, "de[z]=2": lambda o: o.de.__setitem__("z", 2), "q=9": lambda o: setattr(o, "q", 9),
     "base=5": lambda o: setattr(o, "base", 5), "partner.e=8": lambda o: setattr(o.__dict__["_partner"], "e", 8), "t=6": lambda o: setattr(o, "t", 6),
     "partner.le.append": lambda o: o.__dict__["_partner"].le.append(4), "tl.append": lambda o: o.tl.append(8), "read t": lambda o: o.t,
     "read tl": lambda o: list(o.tl), "e=bad": lambda o: setattr(o, "e", 5),
@@ -288,6 +297,22 @@ def run(case, ctx):
                     # validator of the PARTNER inside the propagation: decides the partner's assignment only
                     if err is not None:
                         ctx.fail("sync/raised", "%s: the assignment raised %r" % (where, err))
+                    continue
+                if site in ("getter", "getter_dep") and not opname.startswith("read p"):
+                    # a property getter invoked BY the change notification (a listened-to depends_on/observe property is
+                    # recomputed when its dependency changes): same contract as a change handler - the operation is
+                    # complete, nothing reaches the caller, later behaviour as if the failure never happened; only the
+                    # property's own cache and its own listener's call may be missing
+                    strip = lambda d: {k_: v_ for k_, v_ in d.items() if not k_.startswith("cache_")}
+                    if err is not None:
+                        ctx.fail("handler/exception-escaped", "%s: exception %r reached the caller" % (where, err))
+                    if strip(post) != strip(post0):
+                        ctx.fail("handler/operation-incomplete", "%s: state differs from the fault-free result: %r" % (where, diff(strip(post0), strip(post))))
+                    if sorted(x for x in log if x not in ("pdep",)) != sorted(x for x in log0 if x not in ("pdep",)):
+                        ctx.fail("handler/others-skipped", "%s: handlers run %r, fault-free run %r" % (where, log, log0))
+                    if fol != fol0 or strip(end) != strip(end0):
+                        ctx.fail("handler/later-behaviour", "%s: follow-up %r gives %r (end state differs %r); never-failed twin gives %r"
+                                 % (where, case["follow"], fol, diff(strip(end0), strip(end)), fol0))
                     continue
                 if site in HANDLER_SITES:
                     faulted = HANDLER_SITES[site]
